@@ -133,7 +133,8 @@ type sched struct {
 	step    int64
 	sw      int64
 	hash    uint64
-	log     []Switch
+	log     [1024]Switch
+	nlog    int
 	main    chan struct{}
 	join    sync.WaitGroup
 	dead    string
@@ -221,7 +222,9 @@ func Yield(site int) {
 	stepTotal++
 	if site >= len(siteHits) {
 		grow := make([]int64, site+64)
-		copy(grow, siteHits)
+		for i := range siteHits {
+			grow[i] = siteHits[i]
+		}
 		siteHits = grow
 	}
 	siteHits[site]++
@@ -356,8 +359,9 @@ func (s *sched) pick(t *task, sync bool) *task {
 func (s *sched) switchTo(t, next *task) {
 	s.sw++
 	s.hash = Mix(s.hash, uint64(s.step), uint64(next.id))
-	if len(s.log) < 4096 {
-		s.log = append(s.log, Switch{s.step, next.id})
+	if s.nlog < len(s.log) {
+		s.log[s.nlog] = Switch{s.step, next.id}
+		s.nlog++
 	}
 	s.cur = next
 	raceDisable()
@@ -382,8 +386,12 @@ func (s *sched) resume(next *task) {
 func (s *sched) taskMain(t *task) {
 	raceDisable()
 	<-t.wake
-	raceEnable()
+	// The task body runs in "harness mode": synchronisation events of the harness itself (journal writes, fmt and
+	// encoding/json pools, ...) are ignored by the race detector, so that they neither get reported nor add
+	// happens-before edges between tasks that could hide frugal's own races. Calls into frugal are bracketed by
+	// Visible, inside which the detector sees everything.
 	t.fn()
+	raceEnable()
 	s.join.Done() // real release edge towards the final join in Run
 	raceDisable()
 	t.done = true
@@ -398,8 +406,9 @@ func (s *sched) taskMain(t *task) {
 	}
 	s.sw++
 	s.hash = Mix(s.hash, uint64(s.step), uint64(nx.id))
-	if len(s.log) < 4096 {
-		s.log = append(s.log, Switch{s.step, nx.id})
+	if s.nlog < len(s.log) {
+		s.log[s.nlog] = Switch{s.step, nx.id}
+		s.nlog++
 	}
 	s.cur = nx
 	s.resume(nx)
@@ -420,23 +429,23 @@ func (s *sched) allDone() bool {
 //
 //go:norace
 func (s *sched) anyRunnable() *task {
-	var cand []*task
+	n := 0
+	var firstCand *task
 	for _, o := range s.tasks {
 		if s.runnable(o) {
-			cand = append(cand, o)
-		}
-	}
-	if s.cfg.ExplicitSwitches != nil && len(cand) > 0 {
-		if to, ok := s.cfg.ExplicitSwitches[s.step]; ok {
-			for _, o := range cand {
-				if o.id == to {
-					return o
-				}
+			if firstCand == nil {
+				firstCand = o
 			}
+			n++
 		}
-		return cand[0]
 	}
-	if len(cand) == 0 {
+	if s.cfg.ExplicitSwitches != nil && n > 0 {
+		if to, ok := s.cfg.ExplicitSwitches[s.step]; ok && to < len(s.tasks) && s.runnable(s.tasks[to]) {
+			return s.tasks[to]
+		}
+		return firstCand
+	}
+	if n == 0 {
 		// admit the not-yet-arrived task with the earliest arrival
 		var best *task
 		for _, o := range s.tasks {
@@ -456,38 +465,32 @@ func (s *sched) anyRunnable() *task {
 	}
 	switch s.cfg.Strategy {
 	case StratNonPreemptive, "":
-		if s.cfg.ExplicitSwitches == nil {
-			// fixed order
-			for _, id := range s.order() {
-				for _, o := range cand {
-					if o.id == id {
-						return o
-					}
-				}
+		// fixed order
+		for _, id := range s.cfg.Order {
+			if id < len(s.tasks) && s.runnable(s.tasks[id]) {
+				return s.tasks[id]
 			}
 		}
+		return firstCand
 	case StratPCT:
-		best := cand[0]
-		for _, o := range cand {
-			if o.prio > best.prio {
+		best := firstCand
+		for _, o := range s.tasks {
+			if s.runnable(o) && o.prio > best.prio {
 				best = o
 			}
 		}
 		return best
 	}
-	return cand[s.rng.Intn(len(cand))]
-}
-
-//go:norace
-func (s *sched) order() []int {
-	if len(s.cfg.Order) > 0 {
-		return s.cfg.Order
+	k := s.rng.Intn(n)
+	for _, o := range s.tasks {
+		if s.runnable(o) {
+			if k == 0 {
+				return o
+			}
+			k--
+		}
 	}
-	o := make([]int, len(s.tasks))
-	for i := range o {
-		o[i] = i
-	}
-	return o
+	return firstCand
 }
 
 //go:norace
@@ -646,7 +649,7 @@ func Run(cfg Config, fns []func()) Result {
 		s.join.Wait() // real acquire edge: everything the tasks did happens-before what follows
 	}
 	r := Result{Steps: s.step, Switches: s.sw, SchedHash: s.hash, Deadlock: s.dead, NoProgress: s.noprog,
-		GCs: s.gcs, SwitchLog: s.log, PoolStats: poolSt, BlockedAcq: s.blkAcq}
+		GCs: s.gcs, SwitchLog: append([]Switch(nil), s.log[:s.nlog]...), PoolStats: poolSt, BlockedAcq: s.blkAcq}
 	for _, t := range s.tasks {
 		r.TaskSteps = append(r.TaskSteps, t.steps)
 	}
@@ -726,3 +729,17 @@ func PoolFlushed() { poolSt.Flushes++ }
 
 //go:norace
 func PoolIsReal() bool { return poolMode == "real" }
+
+// Visible runs f (a call into the code under test) with the race detector seeing its synchronisation events.
+// Outside Visible a task is in harness mode (see taskMain).
+//
+//go:norace
+func Visible(f func()) {
+	if !active {
+		f()
+		return
+	}
+	raceEnable()
+	defer raceDisable()
+	f()
+}
